@@ -5,10 +5,16 @@
              with the v1 context only, DB blob opens with the v1 context only, decoded
              document), marker scan of every file of the state directory, mode bits, KEK uses
              - compared with the symbolic model (Server/Crypto.v) run on the database model.
-   - Tamper: outcomes of db.Open on altered copies of a saved file (bit flips, truncations,
-             foreign key, fields of another database, version edits) - the verified monitor
-             [tamper_ok] (error or exactly the original contents).
-   - Keys:   KEK uses at creation and at opening.
+             The handle is dropped and the file REOPENED with the same key at random points
+             (HRe): one KEK use per reopen, none by any call incl. the first write after it.
+   - Opens:  a session of db.Open attempts IN ONE PROCESS on one path, every attempt made
+             right after a successful open of the original file with the right key and
+             followed by another one: right key (AR), foreign keys on the original bytes (AF),
+             right key on altered bytes (AT: bit flips, truncations, fields of another
+             database, version edits).  Outcome and the uses of the key GIVEN to the attempt
+             and of all OTHER keys are compared with the symbolic [c_open] (AR, AF) resp.
+             judged by the verified monitors [tamper_ok], [open_uses_ok] (AT).
+   - Keys:   KEK uses at creation and at each of several reopens.
    - Mode:   permission bits of secret-bearing files at creation (temporary of the database
              from the strace trace, client cache file and directory). *)
 From Coq Require Import List Bool NArith.
@@ -34,10 +40,19 @@ Record sobs := {
 
 Inductive fkind := FTmpCreate | FCacheFile | FCacheDir.
 
+Inductive hobs :=
+| HOp (o : DB.op V) (ob : sobs)      (* a call, probed afterwards *)
+| HRe (ob : sobs).                   (* handle dropped, file reopened with the same key, probed *)
+
+Inductive akind := AR | AF | AT.
+(* one open attempt: outcome (None = error, Some i = opened to the i-th dump of the case's
+   table), uses of the key given to it, uses of all other keys of the session *)
+Inductive att := At (k : akind) (out : option N) (given others : N).
+
 Inductive case :=
-| Hist (steps : list (DB.op V * sobs))
-| Tamper (orig : disk_dump) (outs : list (outcome disk_dump))
-| Keys (at_create at_open : N)
+| Hist (steps : list hobs)
+| Opens (orig : disk_dump) (dumps : list disk_dump) (atts : list att)
+| Keys (at_create : N) (at_reopens : list N)
 | Mode (k : fkind) (m : N).
 
 Definition kek : N := 7.
@@ -58,8 +73,7 @@ Definition probe (f : term) : list N * bool * bool * bool * bool :=
   | None => ([], false, false, false, false)
   end.
 
-Definition check_step (c : cstate) (s' : dbstate V) (o : sobs) : bool :=
-  let '(f, uses) := c_save c 0 (doc_term (kv s')) in
+Definition check_probe (f : term) (uses : N) (model_doc : disk_dump) (o : sobs) : bool :=
   let '(keys, d1, d2, b1, b2) := probe f in
   list_beq N.eqb keys (so_keys o)
   && (so_ver o =? 1)
@@ -67,18 +81,47 @@ Definition check_step (c : cstate) (s' : dbstate V) (o : sobs) : bool :=
   && Bool.eqb b1 (so_db_v1 o) && Bool.eqb b2 (so_db_other o)
   (* the file opens, symbolically, to the document of the model state; so does the real one *)
   && is_some (open kek f)
-  && disk_beq (disk_of (kv s')) (so_doc o)
+  && disk_beq model_doc (so_doc o)
   (* nothing derivable: no marker anywhere *)
   && (so_val_hits o =? 0) && (so_name_hits o =? 0)
   && (so_mode_db o =? 384) && (so_mode_audit o =? 384)
   && (so_kek o =? uses).
 
-Fixpoint run_hist (c : cstate) (s : dbstate V) (steps : list (DB.op V * sobs)) : bool :=
+(* [f]: the symbolic file on disk *)
+Fixpoint run_hist (c : cstate) (s : dbstate V) (f : term) (steps : list hobs) : bool :=
   match steps with
   | [] => true
-  | (o, ob) :: rest =>
-      let '(s', _, _) := db_step N.eqb okenv s su o in
-      check_step c s' ob && run_hist c s' rest
+  | HOp o ob :: rest =>
+      let '(s', _, fx) := db_step N.eqb okenv s su o in
+      let '(f', u) := c_save c 0 (doc_term (kv s')) in
+      let saved := has_save fx in
+      let f1 := if saved then f' else f in
+      check_probe f1 (if saved then u else 0) (disk_of (kv s')) ob && run_hist c s' f1 rest
+  | HRe ob :: rest =>
+      match c_open kek f with
+      | (Some (c', _), u) => check_probe f u (disk_of (kv s)) ob && run_hist c' (db_open (kv s)) f rest
+      | (None, _) => false
+      end
+  end.
+
+(* ---- open attempts ---- *)
+Definition sym_file : term := file_of kek dek 0 0 (Pub 0).
+Definition foreign : N := 8.
+
+Definition att_ok (orig : disk_dump) (dumps : list disk_dump) (a : att) : bool :=
+  let '(At k out given others) := a in
+  let o : outcome disk_dump :=
+    match out with
+    | None => OErr
+    | Some i => match nth_error dumps (N.to_nat i) with Some d => OOpened d | None => OOpened [([], [], 0, 77)] end
+    end in
+  let opened := is_some out in
+  match k with
+  | AR => let '(r, u) := c_open kek sym_file in
+          Bool.eqb opened (is_some r) && tamper_ok disk_beq orig o && (given =? u) && (others =? 0)
+  | AF => let '(r, u) := c_open foreign sym_file in
+          Bool.eqb opened (is_some r) && (given =? u) && (others =? 0)
+  | AT => tamper_ok disk_beq orig o && open_uses_ok opened given others
   end.
 
 Definition expected_mode_ok (k : fkind) (m : N) : bool :=
@@ -90,9 +133,10 @@ Definition expected_mode_ok (k : fkind) (m : N) : bool :=
 
 Definition check (c : case) : bool :=
   match c with
-  | Hist steps => run_hist (fst (c_create kek dek 0)) (db_create V) steps
-  | Tamper orig outs => forallb (tamper_ok disk_beq orig) outs
-  | Keys a b => (a =? snd (c_create kek dek 0)) && (b =? snd (c_open kek (Pub 0)))
+  | Hist steps => let c := fst (c_create kek dek 0) in run_hist c (db_create V) (first_file c 0) steps
+  | Opens orig dumps atts => forallb (att_ok orig dumps) atts
+  | Keys a bs => (a =? snd (c_create kek dek 0)) && forallb (fun b => b =? snd (c_open kek sym_file)) bs
+                 && negb (match bs with [] => true | _ => false end)
   | Mode k m => expected_mode_ok k m
   end.
 
